@@ -12,7 +12,7 @@ from typing import Dict, List, Optional, Set, Tuple
 from fsa.cfg import raised_class
 from fsa.effects import effect_nodes
 from fsa.flow import PARAM
-from fsa.match import Unknown, cmp_of, dict_slot, disj_atoms, dotted, is_call, is_const, is_underscore_key, kwarg, method_call, is_super_call, is_self_call
+from fsa.match import Unknown, cmp_of, dict_slot, disj_atoms, dotted, is_call, is_const, is_underscore_key, kwarg, method_call, is_super_call, is_self_call, nnf_atoms
 from fsa.source import AnchorMissing, Unsupported, c3_mro, iter_own_nodes, resolve_method, stmt_key, text
 from rules.common import Fn
 from rules.solver_common import effects_of
@@ -98,11 +98,44 @@ def _rank_name(f: Fn, nid: int, name: str, depth: int) -> Tuple[str, List[int]]:
             kinds.append('unknown')
             continue
         k, ss = _rank_of(f, s, dv, depth)
+        if k == 'any' and _only_through_ndim1(f, s, nid, name):
+            k = '1d'   # this definition gets here only past a test that found it 1-D
         kinds.append(k)
         sites += ss
     order = ['unknown', 'any', '1d', '1d-len']
     worst = min(kinds, key=order.index) if kinds else 'unknown'
     return (worst, sites)
+
+
+def _only_through_ndim1(f: Fn, site: int, nid: int, name: str) -> bool:
+    """Does the definition of `name` at `site` reach node `nid` only along edges on which `name.ndim == 1` was found true
+    (paths through another definition of `name` do not carry this one)?"""
+    good = set()
+    for tn in f.tests():
+        for (a, tr) in nnf_atoms(tn.ast, True):
+            c = cmp_of(a)
+            if c is not None and set(c.expr.terms) == {f'{name}.ndim'} and len(nnf_atoms(tn.ast, True)) == 1:
+                # c: (k*ndim + const) op 0
+                k_ = c.expr.terms[f'{name}.ndim']
+                eq1 = (c.op in ('==', '!=')) and (k_ + c.expr.const == 0)
+                if eq1:
+                    truth_when_T = tr if c.op == '==' else (not tr)
+                    good.add((tn.id, 'T' if truth_when_T else 'F'))
+    if not good:
+        return False
+    other_defs = {d for d in range(len(f.cfg.nodes)) if d != site and f.cfg.nodes[d].ast is not None and f.cfg.nodes[d].kind == 'stmt'
+                  and any(isinstance(x, ast.Name) and x.id == name and isinstance(x.ctx, ast.Store) for x in ast.walk(f.cfg.nodes[d].ast))}
+    seen, work = {site}, [site]
+    while work:
+        cur = work.pop()
+        for (b, lab) in f.cfg.nodes[cur].succ:
+            if (cur, lab) in good or b in other_defs or b in seen:
+                continue
+            if b == nid:
+                return False
+            seen.add(b)
+            work.append(b)
+    return True
 
 
 def _dimension_guards(f: Fn, nid: int, arr: str) -> Tuple[bool, bool]:
